@@ -102,7 +102,10 @@ Definition has (k : bytes) (l : list bytes) : bool := existsb (bytes_eqb k) l.
     the model predicted the observed output.
       1  the key was written at a GC yield point (F12: GC writes its stale copy back over it)
       2  an OLDER VERSION answers and a GC moved this key (GC re-inserted an old version into
-         the newest memtable; the lookup stops at the first source holding any version <= v)
+         the newest memtable; the lookup stops at the first source holding any version <= v);
+         or the read of a live entry fails in the value log and a GC moved this key earlier (the
+         next GC pass trusted the same lookup, judged the newer version's record stale and
+         removed its file)
       3  the read fails in the value log: a deleted/expired entry whose file GC removed
       11 an older write of the same version answers (C01-F2 / C02-F2: equal internal keys in tables
          whose order is not their age), not caused by GC
@@ -112,7 +115,7 @@ Definition classify (now : N) (a : acc) (k : bytes) (spec lsm : option rec) (agr
   if has k (a_raced a) then 1
   else if negb agree then 999
   else match o, lsm with
-       | OErr, Some m => if dead now m then 3 else 999
+       | OErr, Some m => if dead now m then 3 else if has k (a_moved a) then 2 else 999
        | ONone, Some m =>
            if txn && (blen (r_val m) =? 0) && (r_meta m =? 0) &&
               match spec with Some w => (r_ver w =? r_ver m) && (r_seq w =? r_seq m) | None => false end
